@@ -22,7 +22,7 @@ class Ctx:
         return out
 
     def run_model(self, lines, timeout=1800):
-        rc, out, err = vlib.sh([self.drv], input=("\n".join(self.tlines + lines) + "\n").encode(), timeout=timeout)
+        rc, out, err = vlib.sh("ulimit -s unlimited 2>/dev/null || ulimit -s 1000000; exec %s" % self.drv, input=("\n".join(self.tlines + lines) + "\n").encode(), timeout=timeout)
         if rc != 0:
             raise RuntimeError("model driver failed: " + err[-2000:])
         out = out.split("\n")
@@ -117,6 +117,8 @@ def c_value_matches(f, v, it):
         return None if val == "i%d" % want else "2 03 operand %d expected, got %s" % (want, val)
     if raw == ones and not c31:
         return None if val in ("i-1", "dM", "fM") else "missing expected, got %s" % val
+    if raw == ones and c31 and kind in ("code", "flag") and val == "i-1":
+        return None      # class 31 code/flag tables (0 31 021 = 63 'missing value'): reported as -1, re-encoded as all ones
     if val.startswith("i"):
         iv = int(val[1:])
         if kind in ("code", "flag") or c31:
